@@ -12,9 +12,12 @@ def pick(rnd, i):
     n = ENTRIES[i % len(ENTRIES)]
     keybits = rnd.choice([3, 4, 6]) if n <= 4 else rnd.choice([4, 6])
     nkeys = min(1 << keybits, n + 2)
-    case = {"kind": "CAM", "entries": n, "key_bits": keybits, "keys": nkeys}
+    two = (i // len(ENTRIES)) % 3 == 2
+    case = {"kind": "CAM", "entries": n, "key_bits": keybits, "keys": nkeys, "two_field_key": two}
 
     def make(r):
+        if two:
+            return ContentAddressableMemory([("a", keybits - 1), ("b", 1)], [("d", 8)], n), CamM(n, keybits, nkeys, two_fields=True)
         return ContentAddressableMemory([("a", keybits)], [("d", 8)], n), CamM(n, keybits, nkeys)
 
     return case, make, ""
